@@ -156,7 +156,7 @@ impl Check for Access {
         if tier == Tier::Quick {
             3000
         } else {
-            40000
+            25000
         }
     }
     fn components(&self) -> serde_json::Value {
